@@ -7,6 +7,10 @@ import Gimli.Props.C07
 import Gimli.Props.C08
 import Gimli.Props.C17
 import Gimli.Props.C17Total
+import Gimli.Props.C12Lists
+import Gimli.Props.C12Cfi
+import Gimli.Props.C12Expr
+import Gimli.Props.C12Unit
 /-!
 # C01 — entry points whose Models belong to other properties
 
@@ -98,5 +102,15 @@ theorem entry_index_find_unit : type_of% @Gimli.Props.C17.index_find_unit_total 
 theorem entry_str_offsets : type_of% @Gimli.Props.C17.str_offsets_total := @Gimli.Props.C17.str_offsets_total
 theorem entry_addr : type_of% @Gimli.Props.C17.addr_total := @Gimli.Props.C17.addr_total
 theorem entry_attr_resolution : type_of% @Gimli.Props.C17.attr_resolution_total := @Gimli.Props.C17.attr_resolution_total
+
+/-! ### read→write conversion entry points (component Models of C12) -/
+/-- `RangeList::from` / `LocationList::from` -/
+theorem entry_convert_lists : type_of% @Gimli.Props.C12.convert_total := @Gimli.Props.C12.convert_total
+/-- `CallFrameInstruction::from` and the instruction loops of `FrameTable::from` -/
+theorem entry_convert_cfi : type_of% @Gimli.Props.C12.cfi_convert_total := @Gimli.Props.C12.cfi_convert_total
+/-- `Expression::from`: total, and the converted operations nest at most 64 deep (repaired C12-E1) -/
+theorem entry_convert_expr : type_of% @Gimli.Props.C12.convert_expr_total := @Gimli.Props.C12.convert_expr_total
+/-- unit conversion fails only with the error of one attribute's conversion -/
+theorem entry_convert_unit : type_of% @Gimli.Props.C12.convert_fails_only_on_attr := @Gimli.Props.C12.convert_fails_only_on_attr
 
 end Gimli.Props.C01
